@@ -92,7 +92,10 @@ func (t *template) resolveLayoutPath(layout, currentFile string) string {
 		return relativePath
 	}
 
-	// Fall back to layouts/ directory
+	// Fall back to layouts/ directory (a name written with its extension keeps it)
+	if strings.HasSuffix(layout, ".vuego") {
+		return "layouts/" + layout
+	}
 	return "layouts/" + layout + ".vuego"
 }
 
